@@ -144,6 +144,7 @@ func runJobs(c *vx.Ctx, jobs []vx.Job, st *exploreStats, props []string, each fu
 				st.keys[vx.ShortHash(r.Key)] = struct{}{}
 			}
 			c.Transitions += int64(len(r.Trace))
+			c.Transitions += r.Counters["steps"]
 			if each != nil {
 				each(j, r)
 			}
